@@ -560,13 +560,8 @@ impl State<'_> {
                                 starts_at: None,
                             }));
                         }
-                        if params.is_empty() && toks[i + 2..j].iter().any(is_break) {
-                            // RSSL counts the line break as an argument of a macro without
-                            // parameters; C does not
-                            return Err(Stop::Unmodelled(
-                                "line break inside the parentheses of a macro without parameters".into(),
-                            ));
-                        }
+                        // (a line break between the parentheses of a macro without parameters is no
+                        // argument: C, and RSSL since its repair in round 8)
                         let arity_ok = if params.is_empty() {
                             args.len() == 1 && args[0].iter().all(is_break)
                         } else {
